@@ -919,6 +919,27 @@ def _lookahead(w: World, rep: Report):
                         a.comparators[0].id in TABLES:
                     if (isinstance(a.ops[0], ast.NotIn) and pol is True) or (isinstance(a.ops[0], ast.In) and pol is False):
                         consulted.add(a.comparators[0].id)
+            # conditions on the *spelling* of the second symbol may keep instructions out (the OP_ prefix) but never a
+            # value: every value spelling - the bare `x` (empty payload) and `d0` included - must reach this form
+            from .feval import feval, Unknown
+            sp = fi.params[1] if len(fi.params) > 1 else 'symbols'
+            for prm in fi.params:
+                if fi.annotations.get(prm, '').startswith('list'):
+                    sp = prm
+            kept_out = None
+            for t, pol in cfg.dominating_conditions(nd):
+                for sym in ('x', 'd0', 'x00', 'xff00', 'd-5', 's"a"', "s'b'", 'f1.5', 'd1'):
+                    try:
+                        v = bool(feval(t.ast, {sp: ('OP_PUSH1', sym, 'OP_TRUE')}))
+                    except Unknown:
+                        break
+                    if v != pol:
+                        kept_out = kept_out or (ast.unparse(t.ast)[:50], sym)
+            rep.check('C11.R7', f'parsing.{fi.name}|two-symbol-form|no-value-spelling-kept-out', kept_out is None, line=nd.line,
+                      file=RELP, why='' if kept_out is None else
+                      f'`{kept_out[0]}` keeps the value `{kept_out[1]}` from being read as the operand: the size is then taken '
+                      f'for the value and the value for an instruction (`OP_PUSH1 d0 x`, what the decompiler prints for an '
+                      f'empty push, no longer compiles)')
             missing = [t for t in TABLES if t not in consulted]
             rep.check('C11.R7', f'parsing.{fi.name}|two-symbol-form|tables-consulted', not missing, line=nd.line, file=RELP,
                       why='' if not missing else
